@@ -156,7 +156,10 @@ type result struct {
 	kind     string // ok | rejected | timeout | local | other
 }
 
-func classify(err error) string {
+// classify sorts the result of one Update call without looking at message
+// texts: the typed errors of the client, whether the call's own context had
+// expired when it returned, and whether the proposal was put on the wire at all.
+func classify(err error, ctxExpired, sent bool) string {
 	if err == nil {
 		return "ok"
 	}
@@ -165,16 +168,10 @@ func classify(err error) string {
 		return "rejected"
 	}
 	var to client.RequestTimedOutError
-	if errors.As(err, &to) {
+	if errors.As(err, &to) || ctxExpired || errors.Is(err, context.DeadlineExceeded) || errors.Is(err, context.Canceled) {
 		return "timeout"
 	}
-	msg := err.Error()
-	switch {
-	case bytes.Contains([]byte(msg), []byte("locking machine mutex in time")):
-		return "timeout"
-	case bytes.Contains([]byte(msg), []byte("context deadline exceeded")), bytes.Contains([]byte(msg), []byte("context canceled")):
-		return "timeout"
-	case bytes.Contains([]byte(msg), []byte("updating machine")):
+	if !sent {
 		return "local" // refused by the own machine before anything was sent (final state, wrong phase)
 	}
 	return "other"
@@ -227,7 +224,15 @@ func runCase(c Case) *h.Outcome {
 	}
 	var amu sync.Mutex
 	onAcc := map[accKey]context.CancelFunc{}
+	// proposals that were put on the wire
+	var smu sync.Mutex
+	sentProps := map[string]bool{}
 	pr.Env.Bus.Tap(func(e *wire.Envelope) {
+		if m, ok := e.Msg.(*client.ChannelUpdateMsg); ok && m.State != nil {
+			smu.Lock()
+			sentProps[string(enc(m.State))] = true
+			smu.Unlock()
+		}
 		if m, ok := e.Msg.(*client.ChannelUpdateAccMsg); ok {
 			amu.Lock()
 			cancel := onAcc[accKey{m.ChannelID, m.Version}]
@@ -464,7 +469,13 @@ func runCase(c Case) *h.Outcome {
 			proposed = st.Clone()
 			proposed.Version++
 		})
-		return result{step: si, proposed: proposed, err: err, kind: classify(err), startSeq: startSeq, endSeq: pr.Env.Seq.Load()}
+		sent := false
+		if proposed != nil {
+			smu.Lock()
+			sent = sentProps[string(enc(proposed))]
+			smu.Unlock()
+		}
+		return result{step: si, proposed: proposed, err: err, kind: classify(err, ctx.Err() != nil, sent), startSeq: startSeq, endSeq: pr.Env.Seq.Load()}
 	}
 	// ---- opening
 	early := map[int][]int{} // channel -> early steps
@@ -687,11 +698,12 @@ func runCase(c Case) *h.Outcome {
 			}
 			o.Class("ready-after-reject-checked")
 		}
-		// a proposal refused by the proposer's own machine because of its phase,
-		// although the channel is idle, not final and nothing has timed out, means
-		// the party was not ready for a further update
+		// a (valid: the update function only makes affordable transfers) proposal
+		// refused by the proposer's own machine although the channel is idle, not
+		// final and nothing has timed out means the party was not ready for a
+		// further update
 		for _, r := range res {
-			if r.kind == "local" && !sawTimeout && len(g) == 1 && r.err != nil && bytes.Contains([]byte(r.err.Error()), []byte("phase")) {
+			if r.kind == "local" && !sawTimeout && len(g) == 1 && r.err != nil {
 				st := chans[c.Steps[r.step].Chan][c.Steps[r.step].By].State()
 				if !st.IsFinal {
 					return fail("not-ready-for-update", "step %d: Update was refused by the proposer's own machine (%v) although its channel is idle and not final", r.step, r.err)
